@@ -105,7 +105,9 @@ func c06Readers(t *testing.T, s *c06IndexServer) []c06Reader {
 	port, _ := strconv.Atoi(portS)
 	ks := &arvados.KeepService{UUID: "zzzzz-bi6l4-c06c06c06c06c06", ServiceHost: host, ServicePort: port, ServiceType: "disk"}
 	ac := &arvados.Client{APIHost: "unused.invalid", AuthToken: "xyzzy"}
-	kc := &keepclient.KeepClient{Arvados: &arvadosclient.ArvadosClient{ApiToken: "xyzzy"}, Want_replicas: 1}
+	kc := &keepclient.KeepClient{Arvados: &arvadosclient.ArvadosClient{ApiToken: "xyzzy"}, Want_replicas: 1,
+		// same logic as the default client, minus its wall-clock timeouts (2 s connect / 20 s request)
+		HTTPClient: &http.Client{Transport: &http.Transport{}}}
 	kc.SetServiceRoots(map[string]string{ks.UUID: s.srv.URL}, nil, nil)
 	return []c06Reader{
 		{"arvados.KeepService.IndexMount", func() (int, error) {
@@ -163,6 +165,12 @@ func TestVerifC06IndexTruncation(t *testing.T) {
 		cuts, calls := 0, 0
 		for cut := 0; cut <= len(body); cut++ {
 			for mode := 0; mode < c06NModes; mode++ {
+				if mode >= c06ModeChunkedCut && len(body) > 120 && !c06InterestingCut(body, cut) {
+					// the two Content-Length modes cover every cut of every
+					// body; the other two transports cover every cut of short
+					// bodies and the structurally interesting cuts of long ones
+					continue
+				}
 				s.set([]byte(body), cut, mode)
 				for _, rd := range readers {
 					got, err := rd.read()
@@ -223,4 +231,18 @@ func TestVerifC06IndexTruncation(t *testing.T) {
 			stats.Sample("index_body", map[string]interface{}{"body": body, "cut_points": cuts, "modes": c06ModeNames, "readers": []string{readers[0].name, readers[1].name, readers[2].name}})
 		}
 	})
+}
+
+// c06InterestingCut: first/last bytes and everything within one byte of a
+// line boundary or of the hash/mtime separator.
+func c06InterestingCut(body string, cut int) bool {
+	if cut <= 1 || cut >= len(body)-3 {
+		return true
+	}
+	for d := -1; d <= 1; d++ {
+		if i := cut + d; i >= 0 && i < len(body) && (body[i] == '\n' || body[i] == ' ') {
+			return true
+		}
+	}
+	return false
 }
